@@ -1,5 +1,6 @@
 import Driver.Store
 import NixModel.Lemmas.C04Bfs
+import NixModel.Lemmas.C04Forest
 import NixModel.Store.C04Ext
 import NixModel.Store.CopyFrames
 open Lean Nix.Store
@@ -19,6 +20,12 @@ def fuelOk (g : Graph) (c : Cont) (key : Key) : Bool :=
     | .sources => (Nix.Store.C04.bfsRest g "sources" fuel [k]).isEmpty
     | _ => true
 
+/-- the decidable hypothesis of `Nix.C04.subtree_finite_of_growing`, for both hierarchies, with the next node
+key as the bound (op `["growing_ok"]`, asked before every section / source deletion of the correspondence runs) -/
+def growingOk (g : Graph) : Bool :=
+  decide (Nix.Store.C04.GrowingKids g "sections" g.nextKey (fun k => kindOf g k == "section")) &&
+  decide (Nix.Store.C04.GrowingKids g "sources" g.nextKey (fun k => kindOf g k == "source"))
+
 /-- C04 is decided on the structural (HDF5 graph) model: the protocol of `Driver.Store`, plus
 `["fuel_ok", owner, cname, key]`, `["create_df", block, name]` (`Block.create_data_frame(name, "t", …)`) and
 `["dim_link", array, target]` (a new range dimension of `array` linked to `target`), and the copies within the
@@ -33,6 +40,7 @@ def step (g : Graph) (j : Json) : Graph × Json :=
       | some c, some key => (g, Driver.ok (Json.bool (fuelOk g c key)))
       | none, _ => (g, Driver.bad "container")
       | _, none => (g, Driver.bad "key")
+  | [.str "growing_ok"] => (g, Driver.ok (Json.bool (growingOk g)))
   | [.str "create_df", pj, .str name] =>
     match Driver.Store.parsePath pj with
     | some p => Driver.Store.applyG g (createFrame g p name "t")
